@@ -42,11 +42,29 @@ class KeyPool:
         return self.objs[name]
 
     def rsa(self, bits=1024, e=65537, idx=0):
-        return self._get(f"rsa-{bits}-{e}-{idx}", lambda: rsa.generate_private_key(e, bits))
+        return self._get(f"rsa-{bits}-{e}-{idx}", lambda: _gen_rsa(e, bits))
 
     def ec(self, curve=256, idx=0):
         c = ec.SECP256R1() if curve == 256 else ec.SECP384R1()
         return self._get(f"ec-{curve}-{idx}", lambda: ec.generate_private_key(c))
+
+    def ec_tag_collision(self, alg=13, flags=256):
+        """Two distinct EC keys whose DNSKEY key tags (for the given flags/algorithm) are equal (birthday search, cached)."""
+        names = (f"ec-coll-{alg}-{flags}-a", f"ec-coll-{alg}-{flags}-b")
+        if names[0] not in self.data or names[1] not in self.data:
+            curve = ec.SECP256R1() if alg == 13 else ec.SECP384R1()
+            seen = {}
+            while True:
+                k = ec.generate_private_key(curve)
+                t = keytag(rdata(flags, 3, alg, rfc6605(k.public_key())))
+                if t in seen:
+                    for nm, key in zip(names, (seen[t], k)):
+                        self.data[nm] = key.private_bytes(serialization.Encoding.PEM, serialization.PrivateFormat.PKCS8,
+                                                          serialization.NoEncryption()).decode()
+                    self.dirty = True
+                    break
+                seen[t] = k
+        return tuple(self._get(nm, None) for nm in names)
 
     def save(self):
         if self.dirty:
@@ -54,6 +72,21 @@ class KeyPool:
             tmp.write_text(json.dumps(self.data))
             os.replace(tmp, self.path)
             self.dirty = False
+
+
+def _gen_rsa(e: int, bits: int):
+    """RSA key with an arbitrary odd public exponent (cryptography only generates e = 3 / 65537 itself)."""
+    if e in (3, 65537):
+        return rsa.generate_private_key(e, bits)
+    import math
+    while True:
+        k = rsa.generate_private_key(65537, bits)
+        pn = k.private_numbers()
+        phi = (pn.p - 1) * (pn.q - 1)
+        if math.gcd(e, phi) == 1:
+            d = pow(e, -1, phi)
+            return rsa.RSAPrivateNumbers(pn.p, pn.q, d, d % (pn.p - 1), d % (pn.q - 1), pn.iqmp,
+                                         rsa.RSAPublicNumbers(e, pn.public_numbers.n)).private_key()
 
 
 POOL = KeyPool()
